@@ -54,6 +54,15 @@ CHECKS = {
    design="5/C19", technique="Lean 4 proof (potential function over the control stack; induction over wire trees) + differential correspondence",
    note="Rust's {:e} float formatting and error message texts are parameters of the model (re-implemented / canonicalised in the orchestrator); the general theorems are being "
         "added to lean/Minicbor/Thm/C19.lean; the evidence file lists the theorems audited on each run"),
+ "C20": dict(
+   text="In the model the feature configuration is an explicit parameter of exactly the cfg-dependent functions (skip alloc/no-alloc, f32/f64 with/without half); every other "
+        "function is configuration-free by construction. Lean theorems: without half an f9 item is a type error for f32/f64 and on every other input the accessors are "
+        "identical with and without half (value, error class, position); the alloc/no-alloc skip relation is C06's (noalloc refines alloc or reports the documented "
+        "unsupported-nesting error). Correspondence: the library is built six times ({none,alloc,std} x {half,no half}; separate cargo invocations/target dirs, "
+        "default-features=false) and each build is run on one deterministic corpus (all accessors on wire trees, truncations, mutations, random bytes, typed decodes "
+        "available without alloc, all Encoder methods) and compared line by line with the model at that configuration.",
+   design="5/C20", technique="Lean 4 proof (case analysis on the initial byte) + six-configuration differential correspondence against the configured model",
+   note="partial: serde-bridge configurations (no-alloc bridge rejecting indefinite strings / collect_str) are not built separately yet; only x86-64 is compiled; message texts are not compared"),
  "C05": dict(
    text="Lean theorem int_accessor_exact: for every accessor type (u8..u64,i8..i64,Int), every sign, every head width and every argument that fits the width, "
         "the model accessor returns the mathematical value and stops right after the head iff the value is representable in the type, and an error otherwise "
